@@ -375,6 +375,18 @@ pub fn gap_us(rng: &mut Rng, d: i64) -> i64 {
     .max(0)
 }
 
+/// The wall clock is set back now and then (NTP step, resumed VM): with probability `p_run` one or two lines
+/// of the run arrive at a clock reading *earlier* than the line before (by up to 15 s, or by less than a second).
+pub fn clock_steps_back(rng: &mut Rng, lines: &mut [(i64, Vec<u8>, String)], p_run: f64) {
+    if lines.len() < 2 || !rng.chance(p_run) { return; }
+    for _ in 0..rng.range(1, 2) {
+        let i = rng.range(1, lines.len() as i64 - 1) as usize;
+        let back = if rng.chance(0.25) { rng.range(1, 999_999) } else { rng.range(1_000_000, 15_000_000) };
+        lines[i].0 = -back;
+        if !lines[i].2.contains("clock-back") { lines[i].2 = format!("{}:clock-back", lines[i].2); }
+    }
+}
+
 // ------------------------------------------------------------------- chunking
 
 #[derive(Clone, Copy, Debug, PartialEq, Eq)]
@@ -406,7 +418,7 @@ pub fn ops_of(rng: &mut Rng, lines: Vec<(i64, Vec<u8>, String)>, ch: Chunking) -
                     let rest = b.len() - off;
                     let n = if rng.chance(0.4) { rest } else { (rng.below(rest.min(24) as u64) + 1) as usize };
                     // the rest of a line may arrive late (a slow or stalled peer)
-                    let late = if !first && rng.chance(0.08) { rng.range(200_000, 3_000_000) } else { 0 };
+                    let late = if !first && rng.chance(0.08) { if rng.chance(0.15) { rng.range(10_100_000, 40_000_000) } else { rng.range(200_000, 3_000_000) } } else { 0 };
                     ops.push(Op::Data { dt_us: if first { dt } else { late }, bytes: Bytes(b[off..off + n].to_vec()), tag: if first { tag.clone() } else if late > 0 { "late-tail".into() } else { String::new() } });
                     first = false;
                     off += n;
